@@ -1,4 +1,5 @@
 import RactorModel.Model.Pg
+import RactorModel.Model.PgConc
 import Driver.Common
 
 /-! Driver for the `Pg` model (C11).
@@ -64,6 +65,10 @@ def showSnap (st : State) : String :=
   let r := (st.rel.toArray.qsort (fun a b => a.1 < b.1)).toList.map fun p =>
     s!"{p.1}:{plusKeys (sortKeys p.2.mem)}/{plusKeys (sortKeys p.2.gmon)}/{plus (sortNats p.2.wmon)}"
   s!"map={semi m} idx={semi i} world={semi w} rel={semi r} dead={plus (sortNats st.dead)}"
+
+/-- mid-race form: reverse-index entries that hold nothing are left out -/
+def showSnapCanon (st : State) : String :=
+  showSnap { st with rel := st.rel.filter (fun p => !p.2.isEmpty) }
 
 def scopesU : List Nat := [1, 2, 3]
 def groupsU : List Nat := [0, 1, 2]
@@ -152,11 +157,30 @@ def owed (p : OPend) (worldNow : List (Nat × List Nat)) : List Ev × List Ev :=
   let ge := p.gl.map (fun m => Ev.mk m p.isJoin p.s p.g p.actors)
   (ge ++ worldEvs worldNow p.isJoin p.s p.g p.actors, ge ++ worldEvs p.world p.isJoin p.s p.g p.actors)
 
+/-- a `leave_all` iteration of exiter `a` visited key `k` -/
+def phLeaveKey (ph : List (Nat × Fine.Phase)) (a : Nat) (k : Key) : List (Nat × Fine.Phase) :=
+  match AList.get ph a with
+  | some (.leaving mk rm) => AList.set ph a (.leaving (AList.del k mk) rm)
+  | _ => ph
+
+/-- the stale reverse-only MONITOR entries the model accounts for (a `demonitor*` whose fetch found no `Arc`
+ran its entry region after a `monitor*` had registered the actor: `C11.conc_stale_origin`) are not a
+cross-index violation: take them out of the snapshot's reverse index before judging it -/
+def discount (st : State) (sg : List (Nat × Key)) (sw : List (Nat × Nat)) : State :=
+  { st with rel := st.rel.map fun p =>
+      (p.1, { p.2 with
+        gmon := p.2.gmon.filter (fun k => !(sg.contains (p.1, k) && !(listenersOf st k).contains p.1)),
+        wmon := p.2.wmon.filter (fun s => !(sw.contains (p.1, s) && !(worldOf st s).contains p.1)) }) }
+
 structure DState where
   st : State := init
   prev : Option State := none     -- previous implementation snapshot
   acc : List Ev := []             -- E-THR: notifications since the last sync line
-  removed : List (Key × List Nat) := []   -- E-THR: removal records of the running leave_all
+  removed : List (Nat × (Key × List Nat)) := []   -- E-THR: removal records of the running leave_alls, per exiter
+  phases : List (Nat × Fine.Phase) := []  -- E-THR: phase of every exit in flight, from the implementation's own regions
+  fetched : List (Nat × Bool) := []       -- E-THR: per thread, did the `demonitor*` in flight fetch a reverse-index `Arc`?
+  staleG : List (Nat × Key) := []         -- E-THR: stale reverse-only monitor pairs the replayed model has recorded
+  staleW : List (Nat × Nat) := []
   pend : List (Nat × Pending) := []       -- E-THR, model side: per thread, entry done / notify pending
   opend : List (Nat × OPend) := []        -- E-THR, oracle side: the same from the implementation's data
   owedCode : List Ev := []                -- pre-F7 behaviour: group listeners at the change, world at notify
@@ -228,7 +252,8 @@ def step (d : DState) (op impl : String) : DState × StepOut :=
         else if got == showEvs (d.owedCode.filter aliveI) then ["world-recipients-read-at-notify-time"]
         else ["notification-recipients-not-fixed-at-change"]
       ({ d with acc := [], prev := some im.snap, pend := [], opend := [], owedCode := [], owedStrict := [] },
-       { model, oracle := failing im.snap ++ o2 ++ o3, nontrivial := w == ["tend"] && !evs.isEmpty })
+       { model, oracle := failing (discount im.snap d.staleG d.staleW) ++ o2 ++ o3,
+         nontrivial := w == ["tend"] && !evs.isEmpty })
   | "case" :: _ | "thrcase" :: _ =>
     let im := parseImpl? [] impl
     ({ st := init, prev := im.map (·.snap) },
@@ -275,15 +300,16 @@ def step (d : DState) (op impl : String) : DState × StepOut :=
         match a.toNat?, s.toNat?, g.toNat? with
         | some a, some s, some g =>
           let (st', r) := leaveKey d.st a (s, g)
-          ({ d with st := st', removed := d.removed ++ r.toList,
+          ({ d with st := st', removed := d.removed ++ r.toList.map (a, ·), phases := phLeaveKey d.phases a (s, g),
                     opend := d.opend ++ [(tid, ⟨false, s, g, [a], o.gl, o.world⟩)] },
            { model := echo, nontrivial := true })
         | _, _, _ => (d, { model := "bad-op" })
       | ["finishleave", a], some o =>
         let a := a.toNat?.getD 0
-        let (st', evs) := finishLeave d.st a d.removed
+        let (st', evs) := finishLeave d.st a ((d.removed.filter (·.1 == a)).map (·.2))
         let ow := (d.opend.filter (fun p => p.1 == tid)).map (fun p => owed p.2 o.world)
-        ({ d with st := st', acc := d.acc ++ evs, removed := [], opend := dropT d.opend,
+        ({ d with st := st', acc := d.acc ++ evs, removed := d.removed.filter (·.1 != a), opend := dropT d.opend,
+                  phases := AList.set d.phases a .done,
                   owedCode := d.owedCode ++ ow.flatMap (·.1), owedStrict := d.owedStrict ++ ow.flatMap (·.2) },
          { model := echo, nontrivial := true })
       | _, _ =>
@@ -293,23 +319,68 @@ def step (d : DState) (op impl : String) : DState × StepOut :=
         | _ => (parseOp? w').map some
       -- the other regions of the exit sequence and the post-lock clean-up regions
       let fine : Option DState := match w' with
-        | ["dead", a] => a.toNat?.map fun a => { d with st := markDead d.st a }
-        | ["demontake", a] => a.toNat?.map fun a => { d with st := demonTake d.st a }
+        | ["dead", a] => a.toNat?.map fun a =>
+            { d with st := markDead d.st a,
+                     phases := if (AList.get d.phases a).isSome then d.phases else AList.set d.phases a .marked }
+        | ["demontake", a] => a.toNat?.map fun a =>
+            let sn := d.prev.getD d.st
+            { d with st := demonTake d.st a,
+                     phases := AList.set d.phases a (.demon (Conc.relGmonOf sn a) (Conc.relWmonOf sn a)) }
         | ["demonkey", a, s, g] =>
           match a.toNat?, s.toNat?, g.toNat? with
-          | some a, some s, some g => some { d with st := demonKey d.st a (s, g) }
+          | some a, some s, some g =>
+            some { d with st := demonKey d.st a (s, g),
+                          phases := match AList.get d.phases a with
+                            | some (.demon gk wk) => AList.set d.phases a (.demon (AList.del (s, g) gk) wk)
+                            | _ => d.phases }
           | _, _, _ => none
         | ["demonwkey", a, s] =>
           match a.toNat?, s.toNat? with
-          | some a, some s => some { d with st := demonWKey d.st a s }
+          | some a, some s =>
+            some { d with st := demonWKey d.st a s,
+                          phases := match AList.get d.phases a with
+                            | some (.demon gk wk) => AList.set d.phases a (.demon gk (AList.del s wk))
+                            | _ => d.phases }
           | _, _ => none
-        | ["takemem", a] => a.toNat?.map fun a => { d with st := takeMem d.st a, removed := [] }
+        | ["takemem", a] => a.toNat?.map fun a =>
+            let sn := d.prev.getD d.st
+            { d with st := takeMem d.st a, removed := d.removed.filter (·.1 != a),
+                     phases := AList.set d.phases a (.leaving (Conc.relMemOf sn a) []) }
         | ["leavekey", a, s, g] =>
           match a.toNat?, s.toNat?, g.toNat? with
           | some a, some s, some g =>
             let (st', r) := leaveKey d.st a (s, g)
-            some { d with st := st', removed := d.removed ++ r.toList }
+            some { d with st := st', removed := d.removed ++ r.toList.map (a, ·), phases := phLeaveKey d.phases a (s, g) }
           | _, _, _ => none
+        | ["moncreate", _, a] =>
+          -- `get_or_create_actor_relations`
+          a.toNat?.map fun a => { d with st := { d.st with rel := relUpdate d.st.rel a id } }
+        | ["demonitor", g, b] =>
+          -- E-THR: the entry region of `demonitor`; without a fetched `Arc` only the forward side is updated
+          match g.toNat?, b.toNat? with
+          | some g, some b =>
+            if (AList.get d.fetched tid) == some false then
+              some { d with st := Conc.demonitorFwdSt d.st g b, staleG := d.staleG ++ [(b, (defaultScope, g))],
+                            fetched := AList.erase d.fetched tid }
+            else some { d with st := demonitor d.st g b, fetched := AList.erase d.fetched tid }
+          | _, _ => none
+        | ["demonitorscope", sc, b] =>
+          match sc.toNat?, b.toNat? with
+          | some sc, some b =>
+            if (AList.get d.fetched tid) == some false then
+              some { d with st := Conc.demonitorScopeFwdSt d.st sc b, staleW := d.staleW ++ [(b, sc)],
+                            fetched := AList.erase d.fetched tid }
+            else some { d with st := demonitorScope d.st sc b, fetched := AList.erase d.fetched tid }
+          | _, _ => none
+        | ["monitor", g, a] =>
+          -- E-THR: the entry + relations-lock region of `monitor` alone (the re-check is its own line)
+          match g.toNat?, a.toNat? with
+          | some g, some a => some { d with st := Conc.monitorEntry d.st g a }
+          | _, _ => none
+        | ["monitorscope", s, a] =>
+          match s.toNat?, a.toNat? with
+          | some s, some a => some { d with st := Conc.monitorScopeEntry d.st s a }
+          | _, _ => none
         | ["monrecheck", g, a] =>
           match g.toNat?, a.toNat? with
           | some g, some a => some { d with st := monitorRecheck d.st g a }
@@ -323,10 +394,31 @@ def step (d : DState) (op impl : String) : DState × StepOut :=
           | some s, some g, some as => some { d with st := joinCleanup d.st s g as }
           | _, _, _ => none
         | ["finishleave", a] => a.toNat?.map fun a =>
-            let (st', evs) := finishLeave d.st a d.removed
-            { d with st := st', acc := d.acc ++ evs, removed := [] }
+            let (st', evs) := finishLeave d.st a ((d.removed.filter (·.1 == a)).map (·.2))
+            { d with st := st', acc := d.acc ++ evs, removed := d.removed.filter (·.1 != a),
+                     phases := AList.set d.phases a .done }
         | _ => none
+      let fetchStep := fun (b : String) =>
+        -- `get_actor_relations` of a `demonitor*`: does the model's reverse index have an entry for the actor?
+        let b := b.toNat?.getD 0
+        let had := (AList.get d.st.rel b).isSome
+        let model := if d.st.dead.contains b then "had=*" else s!"had={if had then 1 else 0}"
+        (({ d with fetched := AList.set d.fetched tid had } : DState), ({ model, nontrivial := !had } : StepOut))
       match w' with
+      | ["demfetch", _, b] => fetchStep b
+      | ["demsfetch", _, b] => fetchStep b
+      | ["win"] =>
+        -- the window: all threads parked outside the locks in the MIDDLE of the race. The implementation's
+        -- four indexes must equal the model's (correspondence) and, on the implementation's own data, satisfy
+        -- the cross-index invariant weakened exactly by the exits in flight (C11.conc_cross_index_windows),
+        -- with every query the projection of the forward map of that instant (C11.conc_queries_are_projections)
+        let model := s!"ev=- {showSnapCanon d.st} {showQueries d.st}"
+        match parseImpl? d.st.remote impl with
+        | none => (d, { model, oracle := ["unparsable"] })
+        | some im =>
+          let o1 := Conc.windowFailing (discount im.snap d.staleG d.staleW) d.phases
+          let o2 := if im.queries == showQueries im.snap then [] else ["query-disagrees-with-membership-midrace"]
+          ({ d with prev := some im.snap }, { model, oracle := o1 ++ o2, nontrivial := !d.phases.isEmpty })
       | ["readded", _] =>
         -- C11.exit_race_no_late_join / late_drain_then_join_never_adds: cannot happen
         (d, { model := "readded=0",
